@@ -56,12 +56,22 @@ def data_format(fmt, restricted):
     return _FORMATS[key]
 
 
-def make_field(type_name, fld):
-    """(field, None) or (None, reason) -- reason 'skip' when the declaration is legitimately refused."""
-    from cutplace import errors, fields
+def make_field(type_name, fld, late=False):
+    """
+    (field, None) or (None, reason) -- reason 'skip' when the declaration is legitimately refused.
+    late: the field is declared BEFORE the data format learns its allowed characters (a `D` row may follow the `F`
+    rows in a CID); the guard must use the data format's range as it is when data are validated.
+    """
+    from cutplace import data, errors, fields
     rule = TYPES[type_name][0](fld["emptyAllowed"])
     cls = getattr(fields, type_name + "FieldFormat")
     try:
+        if late:
+            fresh = data.DataFormat(fld["fmt"])
+            field = cls("f", fld["emptyAllowed"], length_text(fld["length"]), rule, fresh)
+            fresh.set_property("allowed_characters", "32...125")
+            fresh.validate()
+            return field, None
         return cls("f", fld["emptyAllowed"], length_text(fld["length"]), rule, data_format(fld["fmt"], fld["restricted"])), None
     except errors.InterfaceError:
         return None, "skip"
@@ -113,8 +123,8 @@ def _job(vec):
     if vec["undecided"]:
         return problems
     fld = vec["fld"]
-    for type_name in sorted(TYPES):
-        field, reason = make_field(type_name, fld)
+    for type_name, late in [(name, late) for name in sorted(TYPES) for late in ((False, True) if fld["restricted"] else (False,))]:
+        field, reason = make_field(type_name, fld, late)
         if field is None:
             if reason != "skip":
                 problems.append(reason)
@@ -128,9 +138,9 @@ def _job(vec):
                 continue  # this spelling realises the other hook verdict; its behaviour is a different vector
             if measured is None and not vec["hook"]:
                 continue  # hook not applicable (empty after stripping): one of the two vectors is enough
-            what = "%s field (format %s, empty allowed %s, length %r, allowed characters %s), cell %r" % (
+            what = "%s field (format %s, empty allowed %s, length %r, allowed characters %s%s), cell %r" % (
                 type_name, fld["fmt"], fld["emptyAllowed"], length_text(fld["length"]),
-                "32...125" if fld["restricted"] else "any", text)
+                "32...125" if fld["restricted"] else "any", " set after the field was declared" if late else "", text)
             expected = vec["outcome"]
             if outcome[0] != expected[0]:
                 problems.append("%s: is %sed (%s) but must be %sed (%s)" % (what, outcome[0], outcome[1], expected[0], expected[1]))
